@@ -25,10 +25,12 @@ from .data_structures import DataFile, FileFormat, Schema
 from .integrity import IntegrityChecker
 from .logging_config import get_logger
 from .storage_backend import (
+    DirectorySyncError,
     LocalStorageBackend,
     S3StorageBackend,
     StorageBackend,
     canonical_path,
+    dir_fsync_unsupported,
 )
 
 if TYPE_CHECKING:
@@ -332,9 +334,19 @@ class DataFileWriter:
                             os.fsync(dir_fd)
                         finally:
                             os.close(dir_fd)
-                    except (OSError, AttributeError):
+                    except AttributeError:
                         # Directory fsync not supported - acceptable
                         pass
+                    except OSError as e:
+                        # "Not supported here" is acceptable; a sync that was
+                        # attempted and failed is not: the data file's rename
+                        # may be lost in a power failure, so it must not be
+                        # committed (the append fails, nothing references it).
+                        if not dir_fsync_unsupported(e):
+                            raise DirectorySyncError(
+                                e.errno,
+                                f"directory fsync failed after renaming {self.file_path} into place: {e}",
+                            ) from e
 
                 except Exception:
                     # Clean up temp file if rename failed
